@@ -33,8 +33,20 @@ Files = U.dict("Files", STR, FE)
 Prios = U.dict("Prios", STR, INT)
 FP = U.tuple("FP", [Files, Prios])
 
-ajf = M.opaque("ajf", [JDoc, JDoc, AclL], JDoc, impl=None, note="jsontools.apply_json_fragment(old, fragment, acl) (bounded only)")
-fj = M.opaque("fj", [JDoc], STR, impl=None, note="jsontools.format_json(doc)")
+def _ajf_impl(prev, frag, acl):
+    from annet.annlib import jsontools
+    return jsontools.apply_json_fragment(prev, frag, acl)
+
+
+def _fj_impl(doc):
+    from annet.annlib import jsontools
+    return jsontools.format_json(doc)
+
+
+empty_doc = {}        # native value of the spec constant of the same name
+
+ajf = M.opaque("ajf", [JDoc, JDoc, AclL], JDoc, impl=_ajf_impl, note="jsontools.apply_json_fragment(old, fragment, acl) (bounded only)")
+fj = M.opaque("fj", [JDoc], STR, impl=_fj_impl, note="jsontools.format_json(doc)")
 M.export(jsontools=PyConstObj("jsontools", dict(apply_json_fragment=ajf, format_json=fj)),
          empty_doc=Lazy(lambda: V(JDoc, _empty_doc())))
 
@@ -65,10 +77,31 @@ def chain(rs: JR, fp: FP, old_files: OldFiles, safe: BOOL) -> FP:
     return fp if not rs else chain(dtail(rs), step(fp, dhead(rs)[1], old_files, safe), old_files, safe)
 
 
+def _njf_inputs():
+    import itertools
+    from annet.generators.result import RunGeneratorResult
+    from annet.types import GeneratorJSONFragmentResult
+
+    def gen(name, path, acl, cfg, reload, prio):
+        return GeneratorJSONFragmentResult(name=name, tags=[], path=path, acl=acl, acl_safe=acl, config=cfg, reload=reload, perf=None,
+                                           reload_prio=prio)
+    frags = [("/A/*", {"A": {"x": 1}}), ("/B/*", {"B": {"y": 2}}), ("/A/*", {"A": {"x": 1, "z": 3}}), ("/C", {"C": 5})]
+    olds = [{}, {"/etc/f.json": {"A": {"x": 1}, "B": {"q": 0}}}, {"/etc/f.json": None}]
+    for old_files in olds:
+        for combo in itertools.permutations(range(len(frags)), 2):
+            for prios in ((100, 100), (200, 50), (50, 200), (0, 100)):
+                for second_path in ("/etc/f.json", "/etc/g.json"):
+                    r = RunGeneratorResult()
+                    for n, (i, prio) in enumerate(zip(combo, prios)):
+                        acl, cfg = frags[i]
+                        r.add_json_fragment(gen("g%d" % n, "/etc/f.json" if n == 0 else second_path, [acl], cfg, "reload %d" % n, prio))
+                    yield dict(self=r, old_files=old_files, safe=False)
+
+
 M.contract(F, "RunGeneratorResult.new_json_fragment_files", params=dict(self=Self, old_files=OldFiles, safe=BOOL), defaults=dict(safe=False),
            ret=Files, locals=dict(files=Files, reload_prios=Prios),
            ensures=["result == chain(self.json_fragment_results, ({}, {}), old_files, safe)[0]"],
            loops={1: dict(match="self.json_fragment_results.values()",
                           inv=["chain(_rest1, (files, reload_prios), old_files, safe) == chain(self.json_fragment_results, ({}, {}), old_files, safe)"])},
-           canaries=["len(result) == 0"], properties=["C13"],
+           canaries=["len(result) == 0"], properties=["C13"], inputs=_njf_inputs,
            note="relative to jsontools.apply_json_fragment / format_json (opaque)")
